@@ -93,7 +93,7 @@ PROPS["C05"] = {
     "level_text": ("Generated-input search against an independent reference (internal/model/arpa.go): PrefixFromReversedAddr must succeed exactly when the "
                    "reference decoder does and return the same masked prefix; ExtractReversedAddr must succeed exactly when the name is domain-valid under "
                    "the C03 model and some label-aligned suffix decodes, returning the decode of the longest one. Exhaustive over all label sequences of "
-                   "length 0-4 (quick) / 0-6 (thorough) over a 13-label alphabet; everything else is sampled. Exploration."),
+                   "length 0-4 (quick) / 0-6 (thorough) over a 14-label alphabet; everything else is sampled. Exploration."),
     "level_note": "Trusted: the reference decoder and the C03 name model (idna.ToASCII is part of the specification).",
     "rule": ("ARPA grammar (octets, near-octets, nibbles in both cases, multi-char labels, Unicode digits; counts around 4 and 32; 0-3 leading foreign labels; "
              "suffix variants incl. unaligned roots xin-addr.arpa/xip6.arpa, non-ASCII look-alikes, double dots), encodings of generated prefixes with one "
